@@ -25,7 +25,7 @@ pub fn hosts() -> Vec<(&'static str, Host)> {
     vec![("none", Host::none()), ("declining", declining), ("accepting", accepting)]
 }
 
-const LITS: [&str; 26] = [
+const LITS: [&str; 29] = [
     "0",
     "1",
     "31",
@@ -52,6 +52,9 @@ const LITS: [&str; 26] = [
     "(:k = 1,)",
     "(1 .. 3)",
     "(1 <> 2)",
+    "(1 'ab')",
+    "(\"a\" 'b' :s (2 3))",
+    "((1 = 'a') <> \"b\")",
 ];
 
 const BINOPS: [&str; 36] = [
@@ -61,7 +64,7 @@ const BINOPS: [&str; 36] = [
 const PREOPS: [&str; 8] = ["++", "--", "!", "!!", "??", "#", "_.", "^~"];
 const SUFOPS: [&str; 3] = ["~~", "._", ".|"];
 const CONTAINERS: [&str; 6] = ["(10 20 30)", "\"héllo\"", "'abc'", "((1 2) <> (3 4))", "(:a :b :c)", "(1 .. 9)"];
-const IDX: [&str; 8] = ["0", "1", "2", "5", "(-- 1)", "2147483647", "(-- 2147483647 - 1)", "1.5"];
+const IDX: [&str; 10] = ["0", "1", "2", "5", "(-- 1)", "2147483647", "(-- 2147483647 - 1)", "1.5", "1.0e300", "(-- 1.0e300)"];
 const SLICE_OPS: [&str; 12] = [" .|", " ._", " . 0", " . 1", " . (-- 1)", " == (10 20 30)", " == \"héllo\"", " < \"hex\"", " ~# (# (1 2))", " ~# (# \"\")", " ~# (# '')", " ~# (# :s)"];
 
 /// boundary program texts, deterministic order
@@ -87,6 +90,12 @@ fn make_boundary_programs() -> Vec<String> {
             v.push(format!("{} ~# (# {})", a, b2));
         }
     }
+    // a list sized from a range with a huge bound (slice of a concatenation cast to a list)
+    for lo in ["..", ">..", "..<", ">..<"] {
+        for start in ["0", "1", "1.0e300"] {
+            v.push(format!("(((1 2) <> (3 4)) <~ ({} {} 1.0e300)) ~# (# (1 2))", start, lo));
+        }
+    }
     for c in CONTAINERS {
         for i in IDX {
             v.push(format!("{} . {}", c, i));
@@ -97,6 +106,17 @@ fn make_boundary_programs() -> Vec<String> {
             }
             for j in IDX {
                 if j.contains("2147483647") {
+                    continue;
+                }
+                // a huge float bound: the slice itself is cheap (clamped to the container), consumers that walk the
+                // range (casts to list / text) are in the legitimately-expensive class, the others are run
+                if i.contains("e300") || j.contains("e300") {
+                    for lo in ["..", ">..", "..<", ">..<"] {
+                        let slice = format!("({} <~ ({} {} {}))", c, i, lo, j);
+                        for op in [" .|", " . 0", " == (10 20 30)", " == \"héllo\"", " == 'abc'", " != (:a :b :c)", " < \"hex\""] {
+                            v.push(format!("{}{}", slice, op));
+                        }
+                    }
                     continue;
                 }
                 for (lo, hi) in [("..", ""), (">..", ""), ("..<", ""), (">..<", "")] {
@@ -403,7 +423,7 @@ impl Property for C07 {
     fn meta(&self, tier: Tier) -> Meta {
         let l = layout(tier);
         Meta {
-            rule: format!("(a) the {} programs of the C01 corpora and every accepted input of the C03/C04 token corpora (K1, K2, K4, K5; lengths up to 5 in the quick tier, all in the thorough tier); (b) {} boundary programs: every prefix/suffix operator on, and every binary operator (ranges, casts, concatenation, partial apply, conditionals included) between, 26 boundary literals (i32 limits, 31/32/33/64, huge float, empty and multi-byte text, empty bytes, symbol, symbol and identifier with a multi-byte name, unit, list, keyed list, range, concatenation), casts to the type of each literal, and index / apply / slice / slice-of-slice families over 6 container kinds x 8 boundary indexes; each run to completion (step cap 2 000) on both implementations under hosts {{none, declining, accepting}} (corpus programs: none and accepting in the quick tier, T4 loops without a host) with a mixed keyed/unkeyed list as input; (c) {} deep-data cases: pairs (left/right nested), lists and concatenations nested 10/100/1 000/10 000 deep built through the data API, then Equal (self, copy), LessThan, casts to CharList/ByteList/Symbol, `.|`, clone_data as single instructions. Verdict: no panic unwinds, no abort, no hang (supervised). Non-trivial: every case; distinct by text / parameters.", l.programs, l.boundary, l.deep),
+            rule: format!("(a) the {} programs of the C01 corpora and every accepted input of the C03/C04 token corpora (K1, K2, K4, K5; lengths up to 5 in the quick tier, all in the thorough tier); (b) {} boundary programs: every prefix/suffix operator on, and every binary operator (ranges, casts, concatenation, partial apply, conditionals included) between, 29 boundary literals (i32 limits, 31/32/33/64, huge float, empty and multi-byte text, empty bytes, symbol, symbol and identifier with a multi-byte name, unit, list, keyed list, range, concatenation, lists and concatenations holding text, bytes, symbols and lists), casts to the type of each literal, and index / apply / slice / slice-of-slice families over 6 container kinds x 10 boundary indexes (incl. +-1e300); each run to completion (step cap 2 000) on both implementations under hosts {{none, declining, accepting}} (corpus programs: none and accepting in the quick tier, T4 loops without a host) with a mixed keyed/unkeyed list as input; (c) {} deep-data cases: pairs (left/right nested), lists and concatenations nested 10/100/1 000/10 000 deep built through the data API, then Equal (self, copy), LessThan, casts to CharList/ByteList/Symbol, `.|`, clone_data as single instructions. Verdict: no panic unwinds, no abort, no hang (supervised). Non-trivial: every case; distinct by text / parameters.", l.programs, l.boundary, l.deep),
             assumptions: vec![
                 "an Err returned by a step is acceptable; only unwinding, aborting and exceeding the wall budget are violations".into(),
                 "a worker that aborts (stack overflow) or hangs is attributed to the in-flight element by the supervisor and confirmed in a fresh process".into(),
